@@ -12,6 +12,8 @@ correspondence and the external-call tables, plus a list of cases evaluated agai
             | {"k": "mentions", "tyA": .., "tyB": .., "v": ..}
             | {"k": "nvr", "tyA": .., "v": ..}
             | {"k": "known", "tyA": .., "doc": <json>}
+            | {"k": "nvrdoc", "tyA": .., "doc": <json>}
+            | {"k": "tight", "side": "A"|"B", "ty": .., "doc": <json>}
             | {"k": "dec", "side": "A"|"B", "ty": .., "doc": .., "strict": bool}
             | {"k": "wire", "side": "A"|"B", "ty": .., "v": ..}
             | {"k": "eq", "side": "A"|"B", "a": <pyval>, "b": <pyval>} ]}
@@ -59,6 +61,15 @@ def runCase (st : State) (ρ : Rho) (A B : Env) (c : Json) : P Json := do
     let tA ← tyOf (← jobj c "tyA")
     let d ← jsonOf (← jobj c "doc")
     pure (Json.mkObj [("ok", knownDoc A tA d)])
+  | "nvrdoc" =>
+    let tA ← tyOf (← jobj c "tyA")
+    let d ← jsonOf (← jobj c "doc")
+    pure (Json.mkObj [("ok", nvrDoc ρ A B tA d)])
+  | "tight" =>
+    let env ← sideEnv A B c
+    let t ← tyOf (← jobj c "ty")
+    let d ← jsonOf (← jobj c "doc")
+    pure (Json.mkObj [("ok", tightDoc env t d)])
   | "dec" =>
     let env ← sideEnv A B c
     let t ← tyOf (← jobj c "ty")
